@@ -168,7 +168,8 @@ def eval_real(c):
     rec = {'out': out, 'viol': None}
     srt = conn.last_server_response_time
     if any(k.lower() == 'wbemserverresponsetime' for k in c['headers']) and c.get('sockfault') is None \
-            and c.get('transport_exc') is None and c.get('bodyfault') is None and not op.flags.get('iter'):
+            and c.get('transport_exc') is None and c.get('bodyfault') is None and not op.flags.get('iter') \
+            and not op.flags.get('oracle_only'):      # single-request operations only (later requests reset the attribute)
         rec['srt'] = srt is not None
     if srt is not None and not isinstance(srt, float):
         # documented: "the server response time in seconds (float) ... or None"
@@ -527,6 +528,7 @@ def gen_cases(run, scale):
     return cases
 
 
+UTF8_NOHYPHEN = __import__('re').compile(rb"""\s*<\?xml[^>]*encoding\s*=\s*["'][uU][tT][fF]8["']""")
 HUGE_HEX = __import__('re').compile(rb'0[xX][0-9a-fA-F]{3500,}')
 
 
@@ -660,6 +662,12 @@ def run(run):
             run.count('text:not_utf8')
             continue
         if len(text) > 30000:
+            continue
+        if UTF8_NOHYPHEN.match(c['body']) and any(b >= 0x80 for b in c['body']):
+            # XmlParse.par takes encoding="utf8" for UTF-8; expat does not know that name and Python's fallback
+            # handler builds a single-byte table for it, so non-ASCII content is rejected: outside what the shared
+            # parser model covers (reported to its owner)
+            run.count('text:skipped_decl_utf8_nonascii')
             continue
         tq = dict(q)
         tq['op'] = 'rspText'
